@@ -221,17 +221,12 @@ func checkC11(c *Ctx) {
 	// alias
 	for _, name := range []string{"getPtKey", "deletePtKey", "addKey2PtWithVal", "renamePtKey"} {
 		f := t.Func(pFuncs, name)
-		ok := false
-		if f != nil {
-			allInstrs(f, func(in ssa.Instruction) {
-				if bo, isB := in.(*ssa.BinOp); isB && bo.Op == token.EQL {
-					if cv, isC := bo.Y.(*ssa.Const); isC && cv.Value != nil && cv.Value.ExactString() == `"_"` {
-						ok = true
-					}
-				}
-			})
-		}
-		r.Ob("ALIAS", "funcs."+name+" maps `_` to the message key", "pkg/inimpl/guancecloud/funcs/utils.go", ok, "`_` stands for `message` in every key-taking helper")
+		ok, why := aliasBeforeUse(f)
+		r.Ob("ALIAS", "funcs."+name+" maps `_` to the message key before any use", "pkg/inimpl/guancecloud/funcs/utils.go", ok, "`_` stands for `message` in every key-taking helper: "+why)
+	}
+	for _, name := range []string{"GetKey", "GetKeyConv2Str", "SetVarb"} {
+		ok, why := aliasBeforeUse(t.Method(pRT, "Task", name))
+		r.Ob("ALIAS", "Task."+name+" maps `_` to the message key before any lookup", "pkg/engine/runtime/context.go", ok, "the variable and the point are both looked up under the aliased name: "+why)
 	}
 }
 
@@ -271,13 +266,19 @@ func checkC12(c *Ctx) {
 		}
 	})
 	r.Ob("PATTERN-SCOPE", "Task.SetPattern stores into the current scope frame", t.Pos(setP.Pos()), okCur, "ctx.stackCur.SetPattern(…): a definition belongs to the block that declares it")
-	okStore := false
+	okStore, nStore := true, 0
+	foreign := ""
 	allInstrs(sSet, func(in ssa.Instruction) {
-		if mu, ok := in.(*ssa.MapUpdate); ok && strings.HasSuffix(path(mu.Map), sSet.Params[0].Name()+".CheckPattern") {
-			okStore = true
+		if mu, ok := in.(*ssa.MapUpdate); ok {
+			nStore++
+			if path(mu.Map) != sSet.Params[0].Name()+".CheckPattern" {
+				okStore = false
+				foreign = path(mu.Map)
+			}
 		}
 	})
-	r.Ob("PATTERN-SCOPE", "Stack.SetPattern writes the receiver's own pattern table", t.Pos(sSet.Pos()), okStore, "stack.CheckPattern[alias] = pattern")
+	r.Ob("PATTERN-SCOPE", "Stack.SetPattern writes only the receiver's own pattern table", t.Pos(sSet.Pos()), okStore && nStore > 0,
+		fmt.Sprintf("%d map stores; foreign target: %q — a definition must shadow, never overwrite, the pattern of an enclosing block (it would outlive the block that declares it)", nStore, foreign))
 	walks := false
 	for _, l := range naturalLoops(sGet) {
 		for b := range l.Blocks {
